@@ -67,9 +67,15 @@ func Decide(p *spec.Policy, e spec.Event) (uint32, Info, error) {
 		info.Foreign = true
 		return Ret(p.Default), info, nil
 	}
-	if p.Arch == "x86_64" && e.Nr >= oracle.Const("__X32_SYSCALL_BIT") {
+	if (p.Arch == "x86_64" || p.Arch == "x32") && e.Nr >= oracle.Const("__X32_SYSCALL_BIT") {
 		info.X32 = true
 		return oracle.Const("SECCOMP_RET_ERRNO") | oracle.Const("ENOSYS"), info, nil
+	}
+	if p.Arch == "x32" {
+		// A policy for the x32 table has the audit architecture of x86_64: "on x86_64 any event whose syscall number has
+		// the x32 bit set receives ERRNO(ENOSYS) whatever the policy contains". Its rules speak about numbers that carry
+		// the bit, so a number without the bit is listed by none of them.
+		return Ret(p.Default), info, nil
 	}
 	decided := false
 	ret := Ret(p.Default)
